@@ -597,6 +597,17 @@ func c05Run(r *fw.R, d c05Desc) {
 			for i := 0; i < 300; i++ {
 				ictx, ic := context.WithTimeout(ctx, time.Duration(100+ir.Intn(2900))*time.Microsecond)
 				payload := tagPayload(uint16(500+p), uint32(i), []int{64, 600, 5000, 9000}[ir.Intn(4)])
+				if i%2 == 1 {
+					// a one-shot Write that gives up while queued for the message lock changes nothing
+					err := c.Write(ictx, websocket.MessageBinary, payload)
+					ic()
+					if err != nil && !strings.Contains(err.Error(), "failed to acquire lock") {
+						time.Sleep(time.Duration(3+ir.Intn(10)) * time.Millisecond)
+						c.CloseNow()
+						return
+					}
+					continue
+				}
 				w, err := c.Writer(ictx, websocket.MessageBinary)
 				if err == nil {
 					_, err = w.Write(payload[:len(payload)/2])
